@@ -21,9 +21,11 @@ Is(impl, S) == impl \in S
 
 MemLinkBudget == 64      \* memfs: slCountMax
 
-Mem(impl) == impl = "memfs"
-Orefa(impl) == impl = "orefafs"
-Both(impl) == impl \in {"memfs", "orefafs"}
+\* impl is the target as logged: "memfs", "orefafs", or "memfs-win" / "orefafs-win" for the Windows-typed instances
+WinTyped(impl) == impl \in {"memfs-win", "orefafs-win"}
+Mem(impl) == impl \in {"memfs", "memfs-win"}
+Orefa(impl) == impl \in {"orefafs", "orefafs-win"}
+Both(impl) == Mem(impl) \/ Orefa(impl)
 
 \* lexical cleaning of a component list (what avfs.Clean / Join do to an absolute path)
 RECURSIVE LexCleanR(_, _)
@@ -261,6 +263,20 @@ KF29(impl, st, c) ==
         {Dev("KF29", [res |-> o.res, st |-> [o.st EXCEPT !.lb = st.lb, !.elb = st.elb]], "ok", FALSE)}
     ELSE {}
 
+(* KF33  Windows-typed file systems map "not a directory" and "no such directory" to the same Windows error
+         (ERROR_PATH_NOT_FOUND), so RemoveAll of a path that runs through a regular file answers nil where the
+         Linux-typed file system answers ENOTDIR: the two flavours disagree on success for that call (C17). *)
+KF33(impl, st, c) ==
+    IF WinTyped(impl) /\ c.op = "removeall" /\ Apply(st, c).res.err = "ENOTDIR"
+    THEN {Dev("KF33", Ok(st), "ok", FALSE)} ELSE {}
+
+(* KF34  "Too many levels of symbolic links" is the Linux error value ELOOP in the error table of BOTH OS
+         flavours: a Windows-typed MemFS returns a Linux error value for that failure. *)
+KF34(impl, st, c) ==
+    LET o == Apply(st, c) IN
+    IF WinTyped(impl) /\ o.res.err = "ELOOP"
+    THEN {Dev("KF34", [res |-> [o.res EXCEPT !.err = "LINUX-ELOOP"], st |-> o.st], "ok", FALSE)} ELSE {}
+
 \* DEVIATIONS-END
 
 KFTable(impl, st, c) ==
@@ -269,12 +285,19 @@ KFTable(impl, st, c) ==
      KF07 |-> KF07(impl, st, c), KF08 |-> KF08(impl, st, c), KF10 |-> KF10(impl, st, c),
      KF11 |-> KF11(impl, st, c), KF12 |-> KF12(impl, st, c), KF13 |-> KF13(impl, st, c),
      KF14 |-> KF14(impl, st, c), KF21 |-> KF21(impl, st, c), KF22 |-> KF22(impl, st, c) \cup KF22and24(impl, st, c),
-     KF24 |-> KF24(impl, st, c), KF25 |-> KF25(impl, st, c), KF27 |-> KF27(impl, st, c), KF29 |-> KF29(impl, st, c)]
+     KF24 |-> KF24(impl, st, c), KF25 |-> KF25(impl, st, c), KF27 |-> KF27(impl, st, c), KF29 |-> KF29(impl, st, c), KF33 |-> KF33(impl, st, c), KF34 |-> KF34(impl, st, c)]
 
-AllKF == {"KF01", "KF02", "KF03", "KF04", "KF05", "KF06", "KF07", "KF08", "KF10", "KF11", "KF12", "KF13", "KF14", "KF21", "KF22", "KF24", "KF25", "KF27", "KF29"}
+AllKF == {"KF01", "KF02", "KF03", "KF04", "KF05", "KF06", "KF07", "KF08", "KF10", "KF11", "KF12", "KF13", "KF14", "KF21", "KF22", "KF24", "KF25", "KF27", "KF29", "KF33", "KF34"}
 
 DevOutcomes(impl, st, c) ==
-    LET t == KFTable(impl, st, c) IN UNION {t[k] : k \in (OpenKF \cap DOMAIN t)}
+    LET t == KFTable(impl, st, c)
+        d1 == UNION {t[k] : k \in (OpenKF \cap DOMAIN t) \ {"KF34"}}
+        \* KF34 applies to whatever outcome carries ELOOP, strict or deviating
+        eloop == {o \in d1 \cup {Strict(y) : y \in StrictOutcomes(st, c)} : o.res.err = "ELOOP"}
+        w == IF WinTyped(impl) /\ "KF34" \in OpenKF
+             THEN {[o EXCEPT !.res.err = "LINUX-ELOOP", !.kf = IF o.kf = "" THEN "KF34" ELSE o.kf \o "+KF34"] : o \in eloop}
+             ELSE {} IN
+    d1 \cup w
 
 Outcomes(impl, st, c) ==
     IF impl = "osfs" THEN {Strict(o) : o \in StrictOutcomes(st, c)}
